@@ -168,6 +168,7 @@ def shards(tier, seed):
         out.insert(0, ('sequence', first, None, tier))
     out.append(('static', None, None, tier))
     out.append(('statustext', None, None, tier))
+    out.append(('closefail', None, None, tier))
     out.append(('catchall', None, None, tier))
     # seed extension: one more value shape
     out.append(('extra', seed % 4, None, tier))
@@ -741,6 +742,71 @@ def statustext_case(om, text, way, method):
     return probs, c
 
 
+# ---- a handler iterable whose close() fails, on answers that carry no body (the iterable is closed BEFORE anything was sent) -------
+
+CLOSEFAIL_ITEMS = [[b'ab'], ['a', 'b'], [b''], []]
+CLOSEFAIL_WAYS = ['HEAD', 'status204', 'status304', 'resp204', 'raise304', 'HEAD-resp']
+
+
+def closefail_case(om, items, way, where):
+    """-> (problems, call).  where: 'close' = close() raises; 'finally' = a generator whose finally block raises when it is closed"""
+    app = om.Ombott()
+
+    class It:
+        def __iter__(self):
+            return iter(items)
+
+        def close(self):
+            raise RuntimeError('close failed')
+
+    def gen():
+        try:
+            for it in items:
+                yield it
+        finally:
+            raise RuntimeError('cleanup failed')
+
+    def h():
+        body = It() if where == 'close' else gen()
+        if way in ('status204', 'status304'):
+            app.response.status = int(way[-3:])
+            return body
+        if way in ('resp204', 'HEAD-resp'):
+            return om.HTTPResponse(body, 204 if way == 'resp204' else 200)
+        if way == 'raise304':
+            raise om.HTTPResponse(body, 304)
+        return body
+    app.route('/c', 'GET', h)
+    method = 'HEAD' if way.startswith('HEAD') else 'GET'
+    cl = wsgi.call(app, wsgi.environ(method, '/c'))
+    probs = wsgi.pep3333_problems(cl, method)
+    if len(cl.sr_calls) != 1:
+        probs.append(f'start_response was called {len(cl.sr_calls)} times: {[x[0] for x in cl.sr_calls]}')
+    if cl.escaped is not None:
+        probs.append(f'escaped: {cl.escaped!r}')
+    return probs, cl
+
+
+def work_closefail(res, om):
+    c = res['counters']
+    for items, way, where in itertools.product(CLOSEFAIL_ITEMS, CLOSEFAIL_WAYS, ('close', 'finally')):
+        case = {'closefail': [items, way, where]}
+        core.track(res, case)
+        probs, cl = closefail_case(om, items, way, where)
+        res['states'] += 1
+        res['transitions'] += 1
+        c['closefail_calls'] += 1
+        c['calls'] += 1
+        res['nontrivial'] += 1
+        res['outcomes'].add(f'failing close on a body-less answer -> {cl.code} {"ok" if not probs else "BAD"}')
+        if probs:
+            core.add_violation(res, {'closefail': [[x if isinstance(x, str) else {'b': list(x)} for x in items], way, where]},
+                               f'handler iterable {items!r} whose {"close()" if where == "close" else "generator cleanup"} raises, answer without a body ({way}): {probs[0]}',
+                               sig='closefail:' + probs[0][:30])
+    core.untrack()
+    core.add_sample(res, {'closefail_ways': CLOSEFAIL_WAYS, 'items': [repr(i) for i in CLOSEFAIL_ITEMS]})
+
+
 def work_statustext(res, om):
     """a status given as text ('404 Not Found', possibly cut out of an upstream status line with blanks or a line end around it)
     through every way of setting it: the status line handed to the server is the trimmed text"""
@@ -862,6 +928,8 @@ def work(spec):
         work_static(res, om)
     elif kind == 'statustext':
         work_statustext(res, om)
+    elif kind == 'closefail':
+        work_closefail(res, om)
     elif kind == 'catchall':
         work_catchall(res, om, 4 if tier == 'quick' else 5)
     elif kind == 'sequence':
@@ -888,6 +956,14 @@ def post(run):
 
 def replay(case):
     om = sut.load()
+    if 'closefail' in case:
+        items, way, where = case['closefail']
+        items = [x if isinstance(x, str) else bytes(x['b']) for x in items]
+        probs, cl = closefail_case(om, items, way, where)
+        if not probs:
+            return None
+        return (f'a handler iterable {items!r} whose {"close()" if where == "close" else "generator cleanup (finally block)"} raises, on an answer without a body '
+                f'({way}): {probs[0]}')
     if 'catchall' in case:
         start, seq = case['catchall']
         bad = catchall_once(om, start, seq)
